@@ -42,6 +42,11 @@ def gen_rows(ctx, fmt, max_rows):
                 t[fname] = str(int(t[fname]))
             if kind in ("int", "sint", "optint"):
                 t[fname] = str(int(t[fname]))
+            if kind == "float" and tape.boolean("float_extreme", 1, 5):
+                # values whose shortest round-trip text is long: many significant digits, sign, three-digit exponents
+                t[fname] = tape.choice(["-1.2345678901234567e-100", "1.7976931348623157e+308", "5e-324",
+                                        "-2.2250738585072014e-308", "0.30000000000000004", "1e+22", "1e-07",
+                                        "123456789.12345679", "-9.999999999999999e+99", "1.0000000000000002"], "float_extreme.v")
             if kind in ("int", "sint", "pos1") and tape.boolean("pow10", 1, 5):
                 # widths are derived with log10: values at and next to powers of ten, up to the int64 range
                 k = 1 + tape.draw(18, "pow10.k")
@@ -198,7 +203,7 @@ class Writer:
 
 def split_header(fmt, data):
     """leading header lines of the written file (VCF '#', SAM '@')"""
-    mark = {"vcf": b"#", "sam": b"@"}.get(fmt.header or "")
+    mark = {"vcf": b"#", "vcfinfo": b"#", "vcfgt": b"#", "sam": b"@"}.get(fmt.header or "")
     if not mark:
         return b"", data
     pos = 0
@@ -218,9 +223,7 @@ def check_canonical(fmt, body, rows, where, detail):
         raise Violation("canonical", f"{fmt.name}.carriage_return", dict(detail, where=where, body=core.esc(body[:300])))
     if body and not body.endswith(b"\n"):
         raise Violation("canonical", f"{fmt.name}.unterminated", dict(detail, where=where, body=core.esc(body[-200:])))
-    vbody = body
-    if fmt.name == "sam":
-        vbody = body.replace(b"\t\n", b"\n")   # an empty optional-tags column may be written as a trailing tab
+    vbody = body     # (an empty SAM optional-tags column is left out together with its separator: no trailing tab)
     res = T.validate(fmt, vbody, style)
     if res[0] != "ok":
         raise Violation("canonical", f"{fmt.name}.malformed_output",
